@@ -1,12 +1,11 @@
 // ---- remote command lists (C04): incremental.rs apply_remote_deletes, transfer.rs create_remote_dirs ----
 //@item file=src/bin/copia/incremental.rs kind=enum name=Dir
-pub struct VErr { _p: () }      // R11
-impl From<std::io::Error> for VErr { #[verifier::external_body] fn from(e: std::io::Error) -> Self { VErr { _p: () } } }
 
 // what the remote end is asked to do (ghost log, R7). The remote shell itself is not Rust and has no contract: ASSUMED (A) is
 // only how `xargs` cuts its input - at the delimiter its command line names - and that `rm -f --` / `mkdir -p` then act on
 // exactly those arguments.
-pub enum RemoteCmd { Rm { host: Seq<char>, paths: Seq<Seq<char>> }, Mkdir { host: Seq<char>, paths: Seq<Seq<char>> }, Garbled { host: Seq<char> } }
+pub enum RemoteCmd { Rm { host: Seq<char>, paths: Seq<Seq<char>> }, Mkdir { host: Seq<char>, paths: Seq<Seq<char>> }, Garbled { host: Seq<char> },
+    Deliver { host: Seq<char>, path: Seq<char> } }      // `cat > <path>.copia-tmp && [ size ] && mv` of ONE file (transfer_file_to_remote)
 pub struct RemoteLog { pub cmds: Seq<RemoteCmd> }
 pub open spec fn free_of(e: Seq<char>, d: char) -> bool { forall|i: int| 0 <= i < e.len() ==> #[trigger] e[i] != d }
 pub open spec fn all_free(xs: Seq<Seq<char>>, d: char) -> bool { forall|i: int| 0 <= i < xs.len() ==> free_of(#[trigger] xs[i], d) }
@@ -55,6 +54,8 @@ pub open spec fn same_unless_planned(new: Map<PathV, FileS>, old: Map<PathV, Fil
 //@requires
     free_of(remote_root@, '\0'), free_of(remote_root@, '\n'),      // a command-line argument; the CLI splits host:path on ':' only
 //@ensures
+    // effects are only ever appended
+    old(w).log.len() <= final(w).log.len(), forall|k: int| 0 <= k < old(w).log.len() ==> #[trigger] final(w).log[k] == old(w).log[k],
     // pull: only the planned paths are unlinked, nothing else changes, no remote command
     dir is Pull ==> final(rl).cmds == old(rl).cmds
         && same_unless_planned(final(w).files, old(w).files, pv(local_root), dels@, dels@.len() as int)
